@@ -5,7 +5,9 @@ package harness
 
 import (
 	"bytes"
+	"crypto/sha256"
 	"encoding/hex"
+	"regexp"
 	"errors"
 	"fmt"
 	"math/rand"
@@ -16,6 +18,7 @@ import (
 	"testing"
 	"time"
 
+	errorsmod "cosmossdk.io/errors"
 	"cosmossdk.io/math"
 	abci "github.com/cometbft/cometbft/abci/types"
 	sdk "github.com/cosmos/cosmos-sdk/types"
@@ -469,9 +472,23 @@ func (h *pkH) exec(line string) string {
 		h.sentPkts[[2]uint64{uint64(ci), pkt.Sequence}] = pkt
 		h.sentSeen = append(h.sentSeen, [2]uint64{uint64(ci), pkt.Sequence})
 		return "ok"
+	case "chanclose", "chanopen":
+		ci := idxTok(f[1])
+		if ci < 0 || ci >= len(h.chans) {
+			return "invalid"
+		}
+		st := channeltypes.CLOSED
+		if f[0] == "chanopen" {
+			st = channeltypes.OPEN
+		}
+		fx.setChanState(pkPort, h.chans[ci].Hub, st)
+		return "ok"
 	case "ack", "timeout":
 		ci := idxTok(f[1])
 		seq := atou(m["seq"])
+		if f[0] == "ack" && !fx.chanAccepts(pkPort, h.chans[ci].Hub) {
+			return "chanClosed"
+		}
 		pkt, ok := h.sentPkts[[2]uint64{uint64(ci), seq}]
 		if !ok {
 			return "replay" // never sent: no commitment
@@ -717,6 +734,10 @@ func packetFromEvents(evs []abci.Event) (channeltypes.Packet, bool) {
 // error classes of the acknowledgement / timeout stand-ins
 func (f *Fix) ibcAckCls(pkt channeltypes.Packet, ack []byte, ph uint64, relayer sdk.AccAddress) string {
 	ck := f.App.IBCKeeper.ChannelKeeper
+	// core AcknowledgePacket checks the channel state first (timeouts are accepted on closed channels)
+	if !f.chanAccepts(pkt.SourcePort, pkt.SourceChannel) {
+		return "chanClosed"
+	}
 	if len(ck.GetPacketCommitment(f.Ctx, pkt.SourcePort, pkt.SourceChannel, pkt.Sequence)) == 0 {
 		return "replay"
 	}
@@ -772,6 +793,7 @@ type pkPacket struct {
 	Denom            int
 	Unescrow, AckErr bool
 	Failed           bool
+	ErrText          string // canonical class of RollappPacket.Error ("0" when empty, x<digest> when unknown)
 	TargetAddr       string
 }
 
@@ -816,6 +838,7 @@ type pkGrant struct {
 }
 
 type pkSnap struct {
+	Closed  []string
 	GrantsS []pkGrant
 	H       int64
 	Latest  []string
@@ -854,7 +877,7 @@ func (h *pkH) snapshot() *pkSnap {
 		p := p
 		data := p.MustGetTransferPacketData()
 		q := pkPacket{Name: h.pktName(&p), Key: string(p.RollappPacketKey()), Pending: p.Status == commontypes.Status_PENDING, PH: p.ProofHeight,
-			Type: ptypeCh(p.Type), Chan: h.hubChanIdx(&p), Seq: p.Packet.Sequence, Failed: p.Error != "", Orig: "-"}
+			Type: ptypeCh(p.Type), Chan: h.hubChanIdx(&p), Seq: p.Packet.Sequence, Failed: p.Error != "", Orig: "-", ErrText: h.errClassOf(p.Error)}
 		q.Ra = -1
 		for i, r := range pkRollappIDs {
 			if r == p.RollappId {
@@ -1013,11 +1036,42 @@ func (h *pkH) snapshot() *pkSnap {
 			s.Cm = append(s.Cm, fmt.Sprintf("c%d.%d", x[0], x[1]))
 		}
 	}
-	for _, c := range h.chans {
+	for i, c := range h.chans {
 		n, _ := ck.GetNextSequenceSend(ctx, pkPort, c.Hub)
 		s.Ns = append(s.Ns, n)
+		if !h.f.chanAccepts(pkPort, c.Hub) {
+			s.Closed = append(s.Closed, "c"+strconv.Itoa(i))
+		}
 	}
 	return s
+}
+
+var pkRefundErrRe = regexp.MustCompile(`^unable to unescrow tokens, this may be caused by a malicious counterparty module or a bug: please open an issue on counterparty module: spendable balance (\d+)(\S+) is smaller than (\d+)(\S+): insufficient funds$`)
+
+// errClassOf canonicalises RollappPacket.Error: the texts the unchanged code produces are recognised
+// EXACTLY and named; anything else (e.g. a text carrying process-local data) shows as x<digest>
+func (h *pkH) errClassOf(e string) string {
+	if e == "" {
+		return "0"
+	}
+	if os.Getenv("PK_DEBUG") != "" {
+		fmt.Fprintln(os.Stderr, "DEBUG packet error:", e)
+	}
+	closed := errorsmod.Wrapf(channeltypes.ErrInvalidChannelState, "expected one of [%s, %s, %s], got %s",
+		channeltypes.OPEN, channeltypes.FLUSHING, channeltypes.FLUSHCOMPLETE, channeltypes.CLOSED).Error()
+	switch e {
+	case closed:
+		return "ackClosed"
+	case channeltypes.ErrAcknowledgementExists.Error():
+		return "ackExists"
+	}
+	if m := pkRefundErrRe.FindStringSubmatch(e); m != nil && m[2] == m[4] {
+		if i, ok := h.denomIdx[m[2]]; ok {
+			return fmt.Sprintf("refund:%s:%s:d%d", m[1], m[3], i)
+		}
+	}
+	d := sha256.Sum256([]byte(e))
+	return fmt.Sprintf("x%x", d[:6])
 }
 
 func (h *pkH) denomIdxOf(d string) int {
@@ -1044,7 +1098,7 @@ func (s *pkSnap) render(h *pkH, res string) string {
 		if p.Pending {
 			st = "P"
 		}
-		pk = append(pk, fmt.Sprintf("%s/%s/%s/%s/%s/d%d/%s/%s/%s", p.Name, st, p.Target, p.Orig, p.Amount, p.Denom, b2s(p.Unescrow), b2s(p.AckErr), b2s(p.Failed)))
+		pk = append(pk, fmt.Sprintf("%s/%s/%s/%s/%s/d%d/%s/%s/%s", p.Name, st, p.Target, p.Orig, p.Amount, p.Denom, b2s(p.Unescrow), b2s(p.AckErr), p.ErrText))
 	}
 	for i := range h.actors {
 		if len(s.Index[i]) > 0 {
@@ -1079,7 +1133,7 @@ func (s *pkSnap) render(h *pkH, res string) string {
 	for _, n := range s.Ns {
 		ns = append(ns, strconv.FormatUint(n, 10))
 	}
-	return fmt.Sprintf("res=%s h=%d ra=%s pk=%s ix=%s ord=%s lp=%s gr=%s bal=%s rc=%s cm=%s ak=%s ns=%s", res, s.H, strings.Join(ras, ","),
+	return fmt.Sprintf("res=%s h=%d ra=%s pk=%s ix=%s ord=%s lp=%s gr=%s bal=%s rc=%s cm=%s ak=%s ns=%s cl=%s", res, s.H, strings.Join(ras, ","),
 		dashJoin(pk, ";"), dashJoin(ix, ","), dashJoin(ord, ";"), dashJoin(lp, ";"), dashJoin(gr, ";"), strings.Join(bal, ","),
-		dashJoin(s.Rc, ","), dashJoin(s.Cm, ","), dashJoin(s.Ak, ","), strings.Join(ns, ","))
+		dashJoin(s.Rc, ","), dashJoin(s.Cm, ","), dashJoin(s.Ak, ","), strings.Join(ns, ","), dashJoin(s.Closed, ","))
 }
